@@ -174,5 +174,8 @@ class SubunitBase(ABC):
 
     def _call_registered_update_callbacks(self, function_name: str, value: Any):
         if self._initialized:
-            for callback in self._update_callbacks:
-                callback(function_name, value)
+            # Iterate over a copy since callbacks can be (un)registered while iterating
+            # (from within a callback or from another thread) which would raise a RuntimeError
+            for callback in tuple(self._update_callbacks):
+                if callback in self._update_callbacks:
+                    callback(function_name, value)
